@@ -276,6 +276,24 @@ def run_one(case):
                     zero = K.dense(again).ndim == 2 and K.dense(again).shape[1] == 0
                     fails.append(("C07.spec.regenerates-part", "zero-column-part" if zero else "differs", f"part {path}: regenerated vs joint: {d}"))
                     break
+            # the attached (structured) spec as a whole, materialized on the original data without any caller drop set, reproduces
+            # the result: same shape, all parts with the same rows, each part equal to the original part
+            if not any(f[0] == "C07.spec.regenerates-part" for f in fails) and hasattr(specs, "get_model_matrix"):
+                try:
+                    whole = specs.get_model_matrix(K.build(K.frame_code(n, dict(masks), ik, "object")))
+                    w_leaves = dict(K.leaves(whole))
+                    if K.shape_of(whole) != want:
+                        fails.append(("C07.spec.regenerates-whole", "shape", f"regenerated shape {K.shape_of(whole)} formula shape {want}"))
+                    else:
+                        for path, m in r_leaves.items():
+                            d = same_matrix(w_leaves[path], m)
+                            if d is not None:
+                                wc = {p_: K.nrows(m_) for p_, m_ in w_leaves.items()}
+                                cls = "parts-not-row-aligned" if len(set(wc.values())) > 1 else "differs"
+                                fails.append(("C07.spec.regenerates-whole", cls, f"part {path}: model_spec.get_model_matrix(data) vs original result: {d}; rows per regenerated part {wc}"))
+                                break
+                except Exception as e:
+                    fails.append(("C07.spec.regenerates-whole", f"exception {type(e).__name__}", f"model_spec.get_model_matrix(data) raises {type(e).__name__}: {e}"))
     return nontrivial, fails, False
 
 
@@ -327,6 +345,8 @@ def repro(case, clause, R):
         src += "for p, m in leaves(res):\n    same(m, sep[p])\n"
     if clause == "C07.spec.regenerates-part":
         src += "parts = dict(leaves(res))\nfor p, ms in leaves(res.model_spec):\n    same(ms.get_model_matrix(df.copy(), drop_rows=set(R)), parts[p])\n"
+    if clause == "C07.spec.regenerates-whole":
+        src += "parts = dict(leaves(res))\nwhole = res.model_spec.get_model_matrix(df.copy())\nassert shape(whole) == shape(F)\nfor p, m in leaves(whole):\n    same(m, parts[p])\n"
     return src
 
 
